@@ -19,6 +19,8 @@ def monitors(ctx):
 
 def run(ctx):
     monitor.enable(*monitors(ctx))
+    from .. import w_suite
+    w_suite.maybe(ctx)      # thorough tier: the repository's own tests under this property's monitors
     for p in ('merge', 'embed', 'mask', 'forwards'):
         ctx.floor('C15.%s' % p, 300)
     ctx.floor('C15.raised', 100)
